@@ -8,6 +8,7 @@ import (
 	"os"
 	"regexp"
 	"strings"
+	"time"
 
 	"verif/core"
 	"verif/model"
@@ -460,6 +461,80 @@ func checkC09(c *core.Ctx) {
 			return
 		}
 		c.Nontrivial("devfull|" + name + fmt.Sprint(i >= len(fullCmds)))
+	})
+
+	// faults on the standard streams themselves: standard output that refuses every byte (/dev/full) or is
+	// closed, standard input that is closed. A command whose result could not be delivered must not claim success.
+	redirs := []string{">/dev/full", ">&-", "<&-", "<&- >&-"}
+	stdCmds := append(append([]struct {
+		args  []string
+		stdin string
+	}{}, fullCmds...), []struct {
+		args  []string
+		stdin string
+	}{{[]string{"midi", "port", "out"}, ""}, {[]string{"midi", "port", "in"}, ""}, {[]string{"write", "play"}, "doc"}}...)
+	c.Stream("stdfaults", len(stdCmds)*len(redirs), func(i int, r *rand.Rand) {
+		fc := stdCmds[i%len(stdCmds)]
+		rd := redirs[i/len(stdCmds)]
+		payload := map[string][]byte{"doc": []byte("- chord: {degree: \"1\", name: \"m7\"}\n  values: [\"1\"]\n- values: [2]\n"), "text": []byte("C[1] Am7/G[2] R[1]"), "dtext": []byte("1[1] 6m7/5[2] R[1]"), "": {}}[fc.stdin]
+		args := append([]string{}, fc.args...)
+		stdin := payload
+		if strings.Contains(rd, "<&-") && fc.stdin != "" && i%2 == 0 {
+			// with standard input closed the input comes from a FILE (the descriptor 0 is free for it)
+			args = append(args, c.Scratch.File("in.txt", payload))
+			stdin = nil
+		}
+		name := strings.Join(fc.args[:min(3, len(fc.args))], " ") + " " + rd
+		if len(fc.args) >= 2 && fc.args[1] == "play" {
+			return // known finding F-20 (the testdrv port), judged by the flags stream
+		}
+		// what the command prints on an ordinary run
+		ref := c.Crd.Run(runner.Opt{Stdin: payload}, fc.args...)
+		res := c.Crd.Run(runner.Opt{Stdin: stdin, Redirect: rd}, args...)
+		if !judgeOutcome(c, "stdfaults", i, name, res, map[string]any{"argv": runner.ShellQuote(res.Argv), "redirect": rd}) {
+			return
+		}
+		// (a closed standard output is not such a fault: the Go runtime re-opens closed standard descriptors on
+		// /dev/null at start-up, so the writes succeed; those runs are only judged for their form)
+		if strings.Contains(rd, "/dev/full") && ref.OK() && len(ref.Stdout) > 0 && res.Exit == 0 {
+			c.Violate("stdfaults", i, "silent-write-failure:"+strings.Join(fc.args[:min(3, len(fc.args))], " ")+":"+rd, fmt.Sprintf("`crd %s %s` reports success although none of its %d bytes of output could be written", strings.Join(fc.args, " "), rd, len(ref.Stdout)), map[string]any{"run": obs(res)})
+			return
+		}
+		if rd == "<&-" && stdin == nil && ref.OK() && (res.Exit != 0 || !bytes.Equal(res.Stdout, ref.Stdout)) {
+			c.Violate("stdfaults", i, "closed-stdin-with-file:"+strings.Join(fc.args[:min(3, len(fc.args))], " "), fmt.Sprintf("`crd %s FILE <&-`: the input is a FILE, yet the closed standard input changes the result (exit %d)", strings.Join(fc.args, " "), res.Exit), map[string]any{"run": obs(res)})
+			return
+		}
+		c.Nontrivial("stdfaults|" + name + fmt.Sprint(stdin == nil))
+	})
+
+	// input typed on a terminal: lines, then the end-of-file key once. The command must finish (a reader
+	// that asks the terminal again after the end of input waits for the user forever).
+	ttyCmds := []struct {
+		args  []string
+		stdin string
+	}{
+		{[]string{"text", "parse"}, "C[1] Am7/G[2]{txt=x}\nR[1] ;c\nD_7[1]\n"}, {[]string{"text", "parse", "-"}, "C[1]\n"}, {[]string{"text", "parse"}, "C[1] D[\n"}, {[]string{"text", "parse"}, ""},
+		{[]string{"text", "conv", "syllable", "--key", "D"}, "D[1] A_7/E[2]\nR[1]\n"}, {[]string{"text", "conv", "degree"}, "1[1] 5_7[2] ;x\n"}, {[]string{"text", "conv", "degree"}, "1[1] C[1]\n"},
+		{[]string{"write"}, "- chord: {degree: \"1\", name: \"m7\"}\n  values: [1]\n"}, {[]string{"write", "event", "-"}, "- chord: {degree: \"1\", name: \"m7\"}\n  values: [1]\n"}, {[]string{"write", "parse"}, "- values: [1]\n"}, {[]string{"write", "conv", "-c", "cmt"}, "- chord: {degree: \"5\", name: \"7\"}\n  values: [1]\n"},
+		{[]string{"info", "chord", "describe", "-t", "Cm7"}, ""}, {[]string{"info", "key", "list"}, ""},
+	}
+	c.Stream("tty", len(ttyCmds), func(i int, r *rand.Rand) {
+		tc := ttyCmds[i]
+		ref := c.Crd.Run(runner.Opt{Stdin: []byte(tc.stdin)}, tc.args...)
+		res := c.Crd.Run(runner.Opt{Stdin: []byte(tc.stdin), StdinKind: "pty1", IdleAfter: 4 * time.Second}, tc.args...)
+		name := strings.Join(tc.args[:min(3, len(tc.args))], " ") + " (typed on a terminal)"
+		if res.StartErr != nil {
+			c.Inconclusive("no pseudo terminal available: " + res.StartErr.Error())
+			return
+		}
+		if !judgeOutcome(c, "tty", i, name, res, map[string]any{"typed": tc.stdin}) {
+			return
+		}
+		if res.OK() != ref.OK() || !bytes.Equal(res.Stdout, ref.Stdout) {
+			c.Violate("tty", i, "tty-differs:"+strings.Join(tc.args[:min(3, len(tc.args))], " "), fmt.Sprintf("`crd %s`: typed on a terminal the input gives exit %d and %d bytes, through a pipe exit %d and %d bytes", strings.Join(tc.args, " "), res.Exit, len(res.Stdout), ref.Exit, len(ref.Stdout)), map[string]any{"run": obs(res)})
+			return
+		}
+		c.Nontrivial("tty|" + name + tc.stdin)
 	})
 
 	// ---------------- (3) nonsense catalogue
